@@ -8,12 +8,12 @@ ALL = [f"C{n:02d}" for n in range(1, 21)]
 CLAIMS = {
  "C01": dict(
   technique="runtime monitor over decoder executions: panic hook + read_name step counter hook + counting allocator + differential against an independent RFC 1035 parser, on random/mutated/grammar/overlapping-pointer-run/exhaustive small-alphabet inputs",
-  text="Every generated datagram (millions per run, plus every string over a 9-byte name alphabet up to length 6/7 behind four headers) is decoded by the real decoder under instrumentation: a panic, more than 128*len+1024 name-loop steps, more than 1024*len+1MiB peak heap, a name longer than the datagram, or any disagreement with the independent parser W on an accepted message is a violation; label runs laid over one another by backward pointers (G5) and, at a running daemon, every proper prefix of valid responses (R6: nothing beyond the received bytes may be acted on) are part of the input. Held on the inputs explored; not a proof for all 2^72000 datagrams.",
+  text="Every generated datagram (millions per run, plus every string over a 9-byte name alphabet up to length 6/7 behind four headers) is decoded by the real decoder under instrumentation: a panic, more than 128*len+1024 name-loop steps, more than 1024*len+1MiB peak heap, a name longer than the datagram, or any disagreement with the independent parser W on an accepted message is a violation; label runs laid over one another by backward pointers (G5), strings and RDATA whose length octets are one off either way (G6) and, at a running daemon, every proper prefix of valid responses (R6: nothing beyond the received bytes may be acted on) are part of the input. Held on the inputs explored; not a proof for all 2^72000 datagrams.",
   note="Trusts the independent parser W (harness/src/wire.rs), the step hook in read_name (loops elsewhere are bounded by 16-bit counts) and the counting allocator.",
   ref="§6 C01"),
  "C02": dict(
   technique="runtime differential monitor: messages built through the crate's encoder are parsed back by an independent parser and by the crate's decoder and compared with label-level ground truth",
-  text="Tens of thousands (thorough: >1M) generated messages per run - small, near the 8972-byte limit, several packets long, with an over-size record followed by suffix-sharing records, with look-alike names (a\\.b vs a.b) and ServiceInfo-derived names - are encoded by the real encoder; every packet must be <= 8972 bytes, parse strictly, carry only added records in order with intact names, drop nothing that fits, set TC on all but the last packet, and read back identically through the crate's own decoder.",
+  text="Tens of thousands (thorough: >1M) generated messages per run - small, near the 8972-byte limit, several packets long, with an over-size record followed by suffix-sharing records, with look-alike names (a\\.b vs a.b), names whose lone backslashes are given unescaped the way the daemon keeps names it learned from the network, and ServiceInfo-derived names - are encoded by the real encoder; every packet must be <= 8972 bytes, parse strictly, carry only added records in order with intact names, drop nothing that fits, set TC on all but the last packet, and read back identically through the crate's own decoder.",
   note="Trusts W. E4 allowance: in a response, additionals after the first one that does not fit may be left out (DESIGN §12).",
   ref="§6 C02"),
  "C11": dict(
@@ -32,8 +32,8 @@ CLAIMS = {
   note="Oversleep stepping excluded (schedule presumes the daemon is woken when it asks). Services sharing a host name use the same address set (otherwise the daemon conflicts with its own announcements, noted in DESIGN §12).",
   ref="§6 C07"),
  "C12": dict(
-  technique="runtime differential monitor (same scenario woken only on request vs additionally every 10 ms) + invariant on hooked state at every loop iteration (requested wake-up <= every future due time) + idle-spin detector",
-  text="Paired lazy/eager runs of registration, search, lost-tiebreak, conflict-rename, interface-check-interval, expiry/goodbye/flush/verify/stop, follow-up and interface-flap-while-probing scenarios: every action of the eager run must occur in the lazy run and not later (W1); at every gate of the lazy run the requested wake-up is compared with all pending due times read from a full state snapshot (W2); three idle iterations asking to be woken at or before their own time are a spin (W3).",
+  technique="runtime differential monitor (same scenario woken only on request vs additionally every 10 ms) + invariant on hooked state at every loop iteration (requested wake-up <= every future due time) + the poll time-out computed by the run loop (hooked) compared with its earliest timer, also under sends that cost virtual time + idle-spin detector",
+  text="Paired lazy/eager runs of registration, search, lost-tiebreak, conflict-rename, interface-check-interval, expiry/goodbye/flush/verify/stop, follow-up and interface-flap-while-probing scenarios: every action of the eager run must occur in the lazy run and not later (W1); at every gate of the lazy run the requested wake-up is compared with all pending due times read from a full state snapshot (W2); three idle iterations asking to be woken at or before their own time are a spin (W3); at every gate of the lazy run and of a third run in which every datagram sent costs 1-3 ms of virtual time (timers fall due while the daemon is busy) the time-out about to be handed to poll ends no later than the earliest timer, or one millisecond from now if that is overdue (W4).",
   note="Constant jitter per pair (HashMap visiting order must not change who gets which jitter). The interface-check timer is a local of the run loop: covered by W1 only.",
   ref="§6 C12"),
  "C13": dict(
@@ -43,12 +43,12 @@ CLAIMS = {
   ref="§6 C13"),
  "C14": dict(
   technique="runtime monitor over enumerated command-queue positions and iteration splits of shutdown (simulated daemon behind the gate), calls injected mid-clean-up through a send hook, real-thread stress with resolved-receiver check; ThreadSanitizer and valgrind memcheck over the real-thread stress (thorough)",
-  text="Part A: shutdown at every position of every sequence of N<=1 (thorough N<=2) commands out of 20 kinds, released in one iteration or split over up to three, with 0-3 announced services and open searches (a third of the cases with four more open browses and searches whose receivers were dropped without a stop), plus sampled sequences to N=8: goodbyes once per announced service x family (X1), one final SearchStopped per open search (X2), Shutdown reported and every later call of every kind, shutdown included, refused (X3), every reply receiver ever handed out resolved or closed once the daemon thread ended (X4), no panic (X5), second shutdown harmless (X6). Part A3: a slow consumer whose browse channel is full when shutdown comes still gets its SearchStopped. Part A2: 1-4 calls issued on the daemon thread at the moment the k-th goodbye datagram of a shutdown goes out (send hook): accepted calls are answered or their channel closes. Part B: hundreds (thorough: 20000) of real daemons on private ports with 2-8 racing client threads.",
+  text="Part A: shutdown at every position of every sequence of N<=1 (thorough N<=2) commands out of 20 kinds, released in one iteration or split over up to three, with 0-3 announced services and open searches (a third of the cases with four more open browses and searches whose receivers were dropped without a stop), plus sampled sequences to N=8: goodbyes once per announced service x family (X1), one final SearchStopped per open search (X2), Shutdown reported and every later call of every kind, shutdown included, refused (X3), every reply receiver ever handed out resolved or closed once the daemon thread ended (X4), no panic (X5), second shutdown harmless (X6). A third of the part-A worlds run on a port of their own (5454): goodbyes sent to another port are not heard and do not count. Part A3: a slow consumer whose browse channel is full when shutdown comes still gets its SearchStopped. Part A2: 1-4 calls issued on the daemon thread at the moment the k-th goodbye datagram of a shutdown goes out (send hook): accepted calls are answered or their channel closes. Part B: hundreds (thorough: 20000) of real daemons on private ports with 2-8 racing client threads.",
   note="Part B samples OS schedules. Thorough also runs Part B under ThreadSanitizer (nightly, -Zbuild-std, 16 x 120 daemons) and under valgrind memcheck (8 x 25 daemons); every report block is a violation of X5; if the instrumented build cannot be made the part is recorded as not run and decides nothing. One known finding (residual send/exit race) in known_findings.json.",
   ref="§6 C14"),
  "C15": dict(
   technique="runtime crash/liveness monitor: panic hook + daemon-thread exit guard + post-input liveness probes, under hostile API arguments and hostile datagram streams in a simulated world with conflict injection",
-  text="Thousands of cases of 1-3 hostile API calls (names from a hostile grammar incl. labels of 0-256 bytes, multi-byte boundaries, dots/backslashes, existing rename suffixes, totals around 255; hostile property lists with key=value of exactly 255 / 256 bytes; extreme numbers), each followed by 6.3 virtual seconds in which every probe is answered with conflicting data, and hundreds of 20-80-datagram streams (random, mutated, grammar-hostile, and valid record chains with hostile labels that the daemon re-encodes in follow-ups and arbitrary / damaged TXT data; conflicting answers also spell the probed name as its escaped text, so that renaming runs for names with dots and backslashes; competing probe queries carrying our records minus one / plus one / changed / reversed arrive next to them); afterwards status must be Running, a fresh browse must start, and the browse opened before the input must still report a new instance.",
+  text="Thousands of cases of 1-3 hostile API calls (names from a hostile grammar incl. labels of 0-256 bytes, multi-byte boundaries, dots/backslashes, existing rename suffixes, totals around 255; hostile property lists with key=value of exactly 255 / 256 bytes; extreme numbers), each followed by 6.3 virtual seconds in which every probe is answered with conflicting data, and hundreds of 20-80-datagram streams (random, mutated, grammar-hostile, and valid record chains with hostile labels that the daemon re-encodes in follow-ups and arbitrary / damaged TXT data, strings one byte short or long; conflicting answers also spell the probed name as its escaped text, so that renaming runs for names with dots and backslashes; competing probe queries carrying our records minus one / plus one / changed / reversed arrive next to them); afterwards status must be Running, a fresh browse must start, and the browse opened before the input must still report a new instance.",
   note="Checked profile (overflow checks and debug assertions on), so overflow-only panics are reported too.",
   ref="§6 C15"),
  "C19": dict(
@@ -68,17 +68,17 @@ CLAIMS = {
   ref="§6 C04"),
  "C05": dict(
   technique="runtime trace monitor against the delivered-record history model: departure instants (goodbye + 1 s, PTR expiry, verify timeout) computed from the history, every ServiceRemoved and every departure judged both ways",
-  text="The browser scenarios of C03 with TTLs 1 s..4500 s, verify timeouts {0, 1, 400, 999, 1000, 1001, 1500, 2750 ms, 10 s, 1 h}, refresh queries answered or not, lossy deliveries, horizons 3 x largest TTL: instance names with capitals: each departure must produce exactly one ServiceRemoved on time (D2-D4) and each ServiceRemoved must be explained by a departure (D5), also when one of two interfaces the instance was learned on goes away (the scenarios of C18 part P) and when the search of another browsed type is stopped, replaced or started in between.",
+  text="The browser scenarios of C03 with TTLs 1 s..4500 s, verify timeouts {0, 1, 400, 999, 1000, 1001, 1500, 2750 ms, 10 s, 1 h}, refresh queries answered or not, lossy deliveries, horizons 3 x largest TTL: instance names with capitals: each departure must produce exactly one ServiceRemoved on time (D2-D4) and each ServiceRemoved must be explained by a departure (D5), also when one of two interfaces the instance was learned on goes away (the scenarios of C18 part P) and when the search of another browsed type is stopped, replaced or started in between; an address goodbye carried inside the packet of a service of an unbrowsed type (host names with capitals) counts as a departure too.",
   note="A removal up to one second before a record's expiry is accepted (the crate treats the last second of a record as gone).",
   ref="§6 C05"),
  "C06": dict(
   technique="runtime differential monitor against a responder reference model: for each injected query the response required by the statement is computed from the API history and compared with the daemon's egress of the iteration that consumed the query",
-  text="Thousands of responder scenarios (1-3 interfaces on differing subnets, v4/v6; 1-4 services with subtypes, shared hosts, upper-case letters; registered, re-registered, unregistered) with 10-39 queries each at any time, 1-8 questions among type/subtype/meta PTR, SRV, TXT, ANY, A/AAAA (case variants), foreign names, from port 5353 or an ephemeral port, over IPv4 or IPv6, with and without known answers, with EDNS0 OPT or unknown-type additionals appended, instance names with capitals inside and outside ASCII, one scenario in six with a service renamed by a conflict (names in force read off its last announcement): record sets, values, link-local addresses only, destination, ID and question echo (Q1-Q6).",
+  text="Thousands of responder scenarios (1-3 interfaces on differing subnets, v4/v6; 1-4 services with subtypes, shared hosts, upper-case letters; registered, re-registered, unregistered) with 10-39 queries each at any time, 1-8 questions among type/subtype/meta PTR, SRV, TXT, ANY, A/AAAA (case variants), foreign names, from port 5353 or an ephemeral port, over IPv4 or IPv6, with and without known answers, with EDNS0 OPT or unknown-type additionals appended, with header bits other than QR set (RD, AD, CD, TC, AA, opcode untouched), instance names with capitals inside and outside ASCII, one scenario in six with a service renamed by a conflict (names in force read off its last announcement): record sets, values, link-local addresses only, destination, ID and question echo (Q1-Q6).",
   note="A query is judged only if nothing else was due at that instant and not within 400 ms of the end of probing.",
   ref="§6 C06"),
  "C08": dict(
   technique="runtime trace monitor over the simulated wire of one to three real daemons: injected conflicting responses and competing probes at every probe step, a label-level model of the renaming rule, pairwise antisymmetry runs, and a final-state check over a dense grid of start offsets",
-  text="Part R: conflicting SRV/TXT/A/AAAA responses (also in another letter case) at every millisecond of probing against hostile names (existing suffixes up to 2^32-1, 57-63-byte labels, full-length labels whose counter gains a digit with the next rename, dots, non-ASCII), then questions of every type for old and new names, then unregister/shutdown: lost name never used again, new name by the rule, probed three times, reported by NameChange, used in every later packet, encodable (N1, N4, N5). Part T: record-set pairs shown to each other after the 1st/2nd/3rd probe, sorted / reversed / other case: one-second wait then three probes (N2), opposite verdicts (N3), earlier data yields (N3b). Part D: two or three daemons on one link at offsets from a dense grid x jitters: exactly one keeps each original name, all announced, no shared names (N6).",
+  text="Part R: conflicting SRV/TXT/A/AAAA responses (also in another letter case) at every millisecond of probing against hostile names (existing suffixes up to 2^32-1, 57-63-byte labels, full-length labels whose counter gains a digit with the next rename, dots, non-ASCII), then questions of every type for old and new names, then unregister/shutdown: lost name never used again, new name by the rule, probed three times, reported by NameChange, used in every later packet, encodable (N1, N4, N5). Part T: record-set pairs shown to each other after the 1st/2nd/3rd probe, sorted / reversed / other case: one-second wait then three probes (N2), opposite verdicts (N3), earlier data yields (N3b), also against foreign SRV records that differ in priority or weight only; a service renamed by a conflict defends its new name against a competing probe before its announcement (N4-defend-renamed). Part D: two or three daemons on one link at offsets from a dense grid x jitters: exactly one keeps each original name, all announced, no shared names (N6).",
   note="A counter at 2^32-1 may count on or start a fresh suffix. A conflict after the third probe is 250 ms old is not judged. Two known findings for instance names with a dot inside the label (known_findings.json).",
   ref="§6 C08"),
  "C09": dict(
@@ -93,17 +93,17 @@ CLAIMS = {
   ref="§6 C10"),
  "C17": dict(
   technique="runtime trace monitor against the delivered-record history model for address records: every AddressesFound / AddressesRemoved / SearchTimeout / SearchStopped of a hostname search judged both ways",
-  text="Hostname histories: resolve_hostname / stop with the name in any letter case, timeouts {none, 1, 999, 1000, 1001, 1003, 1500, 3002, 7000 ms, 1 h}, a responder announcing 1-2 addresses at a time (v4/v6, owner in any case, TTLs 1-120 s, one of up to two interfaces; alone or inside the announcement of a service of an unbrowsed type), goodbyes, silent loss, queries answered or not, foreign records; observed 150 s past the last call; lazy and eager stepping, a sixth of the histories on a daemon woken up to 2 or 40 ms late: reported addresses are live and complete (H1), removals on time (H2), A and AAAA asked at once and refreshed (H3), timeouts exact (H4), no question and no event after the search ended (H5).",
+  text="Hostname histories: resolve_hostname / stop with the name in any letter case, timeouts {none, 1, 999, 1000, 1001, 1003, 1500, 3002, 7000 ms, 1 h}, a responder announcing 1-2 addresses at a time (v4/v6, owner in any case, TTLs 1-120 s, one of up to two interfaces or of two dual-stack links; alone or inside the announcement of a service of an unbrowsed type), goodbyes, silent loss, queries answered or not, foreign records; observed 150 s past the last call; lazy and eager stepping, a sixth of the histories on a daemon woken up to 2 or 40 ms late: reported addresses are live and complete (H1), removals on time (H2), A and AAAA asked at once and refreshed (H3), timeouts exact (H4), no question and no event after the search ended (H5).",
   note="Each address record keeps one owner spelling and one TTL; late wake-ups are C11's quantifier.",
   ref="§6 C17"),
  "C18": dict(
   technique="runtime monitor: a selection model (call order, last match wins, later interfaces) compared at checkpoints with the daemon's interface table read from hooked state and with the links a fresh query leaves on; per-packet link/subnet rules on the simulated wire; event and cache-snapshot checks after interface loss",
-  text="Part S: 1-4 interfaces (v4/v6/both, two subnets on one interface, secondary addresses inside one subnet, loopback) x 1-6 operations among enable/disable with every IfKind (All, IPv4, IPv6, Name, Addr present/absent/later, Loopback, IndexV4/V6, Predicate) and table edits (address added/removed/moved/renumbered inside its subnet, interface down/up/added/removed), announcements injected on links that are on or off (I3). Part E: up to three selection calls, then explicit and automatic addresses: packets about a service only where it has an address in the link's subnet, carrying only that link's addresses; automatic services follow new addresses (I1, I2). Part P: instances (host names in mixed letter case in half of the cases) learned over two interfaces, then one disappears or is disabled wholly or by family: ServiceRemoved / re-resolved with what is left, nothing learned there reported again, nothing of it left in the cache; either interface may be the one that goes and in half of those cases the other follows (I4, I5).",
-  note="Nothing is judged for one interface-check interval after a table edit (the daemon cannot know yet).",
+  text="Part S: 1-4 interfaces (v4/v6/both, two subnets on one interface, secondary addresses inside one subnet, loopback) x 1-6 operations among enable/disable with every IfKind (All, IPv4, IPv6, Name, Addr present/absent/later, Loopback, IndexV4/V6, Predicate) and table edits (address added/removed/moved/renumbered inside its subnet, interface down/up/added/removed), announcements injected on links that are on or off (I3). Part E: up to three selection calls, then explicit and automatic addresses: packets about a service only where it has an address in the link's subnet, carrying only that link's addresses; automatic services follow new addresses, also after a prefix change or when an interface is re-created under a new index in one check (I1, I2); SRV/A/AAAA questions about an announced service are answered on the link and family it was announced on (I1-answered). Part P: instances (host names in mixed letter case in half of the cases) learned over two interfaces, then one disappears or is disabled wholly or by family: ServiceRemoved / re-resolved with what is left, nothing learned there reported again, nothing of it left in the cache; either interface may be the one that goes and in half of those cases the other follows (I4, I5).",
+  note="Nothing is judged for one interface-check interval after a table edit (the daemon cannot know yet). One known finding (interface returning renumbered in one family, thorough tier) in known_findings.json.",
   ref="§6 C18"),
  "C20": dict(
   technique="runtime monitor of state size: the daemon's own metrics, a hooked full-state snapshot (map keys, records, timers, retransmissions) and paired 1x/4x traffic runs compared",
-  text="Traffic scenarios (40-400 packets: announcements of types nobody browses, SRV/TXT/address records without PTR, NSEC, instances that come and go, PTR-only instances that never resolve, endless re-announcements; TTLs to 120 s; with/without browse, hostname search (mixed-case names, asked twice, stopped in another spelling), own registration, accept_unsolicited): after stopping every search and waiting max TTL + 3 s nothing is cached and at most the interface-check timer is left (G1); at checkpoints the cache holds no more than the open searches relate to (G2); 4x the traffic ends with the same counts (G3); while registrations are still probing, 4x the unrelated questions or API calls leave the same number of timers and retransmissions (G4).",
+  text="Traffic scenarios (40-400 packets: announcements of types nobody browses, SRV/TXT/address records without PTR, NSEC, instances that come and go, PTR-only instances that never resolve, endless re-announcements; TTLs to 120 s; with/without browse, hostname search (mixed-case names, asked twice, stopped in another spelling), own registration, accept_unsolicited; verify requests with time-outs up to an hour in the runs that end quiescent): after stopping every search and waiting max TTL + 3 s nothing is cached and at most the interface-check timer is left (G1); at checkpoints the cache holds no more than the open searches relate to (G2); 4x the traffic ends with the same counts (G3); while registrations are still probing, 4x the unrelated questions or API calls leave the same number of timers and retransmissions (G4).",
   note="G2 allowance 2 x related + 8; G3 flags growth by more than 2x and more than 6. Four known findings (timer heap, PTR-less records, NSEC) in known_findings.json.",
   ref="§6 C20"),
 }
